@@ -67,6 +67,9 @@ def complaints_of(kind, r):
     c = SC.ledger_clean(r["ledger"], r["cfg"], expect_control_listener=not closing)
     if closing and not r.get("close_done", False):
         c.append("server.close() did not complete")
+    acr = r.get("at_close_return") if closing else None
+    if acr and (acr["tasks"] or acr["connections"]):
+        c.append("when server.close() returned, tasks of the server were still running: %s (sessions still in the table: %d, backend files still open: %s)" % (acr["tasks"], acr["connections"], acr["open_files"]))
     if kind == "vanish-control":
         # the data sockets of the vanished peer are still open on ITS side; the server must have let go of its ends
         c = [x for x in c]
